@@ -32,6 +32,8 @@ STRUCT_FAULTS = [
     ("namespace-without-name", "<%namespace file=\"x\"/>", 0, "linecol"),
     ("expression-in-plain-attribute", "<%namespace name=\"${x}\" file=\"y\"/>", 0, "linecol"),
     ("unknown-tag-multiline", "<%nosuchtag\n  a=\"1\"/>", 0, "linecol"),
+    ("tag-name-with-two-colons", "<%a:b:c/>", 0, "linecol"),
+    ("closing-tag-for-namespace-call-mismatch", "<%a:b>x</%a:c>", 7, "linecol"),
 ]
 
 
@@ -50,6 +52,8 @@ COMPILE_FAULTS = [(n_, t_, (t_.rindex(m_) if m_ else 0), w_) for n_, t_, m_, w_ 
     ("attribute-expression", "<%include file=\"${a b}\"/>", None, "linecol"),
     ("call-expression", "<%call expr=\"f(a b)\"></%call>", None, "linecol"),
     ("text-filter", "<%text filter=\"a b\">x</%text>", None, "linecol"),
+    ("tag-name-colon-only", "<%:/>", None, "linecol"),
+    ("namespace-call-without-def-name", "<%a:/>", None, "linecol"),
 ]]
 
 
@@ -82,6 +86,8 @@ def h_compile(n, fault):
             tree = lx.parse()
         except (EXC.SyntaxException, EXC.CompileException) as ex:
             e, tree = ex, None
+        except Exception as ex:
+            e, tree = Foreign(ex), None
         plain_prefix = ref[0] in ("dir", "exc") and ref[1] == n
         if e is None and plain_prefix:
             # the code generator runs on the lexer's tree; the text of Text nodes is concretised (positions do not depend on it)
@@ -100,6 +106,8 @@ def h_compile(n, fault):
                            reserved_names=CG.RESERVED_NAMES)
             except (EXC.SyntaxException, EXC.CompileException) as ex:
                 e = ex
+            except Exception as ex:
+                e = Foreign(ex)
         for c in pre.items:
             if values.ch_in(c, OTHER_BOUNDARIES):
                 p.tag("other-line-boundary")
@@ -135,12 +143,22 @@ def pos_terms(items, off):
     return line, off - last
 
 
+class Foreign:
+    """an exception that is not a Mako syntax / compile exception escaped the compiler"""
+
+    def __init__(self, e):
+        self.e = e
+        self.lineno = self.pos = self.filename = self.source = None
+
+
 def lex(s):
     lx = L.Lexer(s, filename=FILENAME)
     try:
         lx.parse()
     except (EXC.SyntaxException, EXC.CompileException) as e:
         return e
+    except Exception as e:          # engine exceptions are BaseExceptions and pass through
+        return Foreign(e)
     return None
 
 
@@ -185,6 +203,11 @@ def on_struct(fault):
         if e is None:
             acc.vcs += 1
             acc.candidate(kind="no-exception", input=dict(template=w, fault=name), detail="faulty construct accepted")
+            return
+        if isinstance(e, Foreign):
+            acc.vcs += 1
+            acc.candidate(kind="no-exception", input=dict(template=w, fault=name, foreign=type(e.e).__name__),
+                          detail="%s escapes instead of a Mako syntax / compile exception: %s" % (type(e.e).__name__, str(e.e)[:100]))
             return
         line, col = pos_terms(s.items, n + off)
         acc.vcs += 1
@@ -470,6 +493,9 @@ def run(check, tier):
                              dict(kind=kind, leading=nw, trailing=nt, error_line="symbolic 1..3"), ("asserted",)))
     for kw in CTL:
         jobs.append(("C11-ctl-" + kw, h_ctl(kw, 2), on_ctl, "python fault in control line '%s'" % kw, dict(keyword=kw), ("asserted",)))
+    import os
+    if os.environ.get("C11_ONLY"):          # development aid
+        jobs = [j for j in jobs if j[0].startswith(os.environ["C11_ONLY"])]
     for j in jobs:
         driver.register(j[0], j[1], j[2])
     cands = []
